@@ -387,6 +387,26 @@ Proof.
   apply app_inv_head in H. apply app_inv_tail in H. apply dec_inj; assumption.
 Qed.
 
+Lemma unique_holders_full : forall fmt ls h1 h2 id1 id2, mints ls < two64 ->
+  In (h1, id1) (live (fold_left step ls init)) -> In (h2, id2) (live (fold_left step ls init)) -> h1 <> h2 ->
+  id1 <> id2 /\ name_text fmt id1 <> name_text fmt id2 /\ id1 <> 0 /\ id2 <> 0 /\
+  ~ In id1 (free (fold_left step ls init)) /\ ~ In id1 (taken (fold_left step ls init)).
+Proof.
+  intros fmt ls h1 h2 id1 id2 M A B NE.
+  pose proof (inv_reachable ls M) as I. unfold run_steps in I.
+  pose proof (live_id_range _ _ _ I A) as R1. pose proof (live_id_range _ _ _ I B) as R2.
+  assert (D : id1 <> id2).
+  { intros E. subst id2. apply NE. eapply unique_holders; [exact I | exact A | exact B]. }
+  split; [exact D|].
+  split; [intros T; apply D; apply (name_text_inj fmt); [lia | lia | exact T]|].
+  split; [lia|]. split; [lia|]. exact (held_not_pooled _ _ _ I A).
+Qed.
+
+Lemma release_nil_or_cleared : forall s h, h = 0 \/ lookup h (live s) = 0 -> step s (SRelease h) = s.
+Proof.
+  intros s h H. destruct H as [H|H]; [subst h; apply release_nil_noop | apply release_cleared_noop; exact H].
+Qed.
+
 (* ------------------------------------------------------------------ replay *)
 
 Lemma exec_checked_sound : forall ls s s', inv s -> exec_checked s ls = Some s' -> inv s' /\ s' = run_steps s ls.
